@@ -11,3 +11,10 @@ MUTANTS = [
 
 NEUTRALS = [{'name': 'rename local in _handle_sound', 'file': 'partitura/io/importmusicxml.py', 'old': '        tempo = score.Tempo(int(e.attrib["tempo"]), "q")\n        # part.add_starting_object(position, tempo)\n        _add_tempo_if_unique(position, part, tempo)', 'new': '        tmp = score.Tempo(int(e.attrib["tempo"]), "q")\n        _add_tempo_if_unique(position, part, tmp)'},
     {'name': 'reorder articulation list', 'file': 'partitura/io/exportmusicxml.py', 'old': '    "accent",\n    "breath-mark",', 'new': '    "breath-mark",\n    "accent",'}]
+
+# changes made by sub-agents that were given only the property text (see /verif/seeded/<id>/): each must stay reported
+SEEDED = [
+    {'name': 'seeded change C03-r2', 'seed': 'C03-r2', 'expect': '|TIE-key|'},
+    {'name': 'seeded change C03', 'seed': 'C03', 'expect': '|ORDTYPE|'},
+]
+MUTANTS += SEEDED
